@@ -21,7 +21,7 @@ func init() {
 	register(&Property{
 		ID:      "C13",
 		Run:     runC13,
-		Explain: "(1) every `asn1:` struct tag of the Kerberos/SPNEGO wire types (≈200 fields, read from go/types) against a reference table transcribed from RFC 4120 Appendix A, RFC 6806 §11, RFC 4178 §4.2 and RFC 3244 §2: context tag number, explicit, GeneralString on every KerberosString/Realm, GeneralizedTime on every KerberosTime, code-optional ⊆ RFC-optional; APPLICATION numbers at every AddASNAppTag/UnmarshalWithParams site against the RFC and the iana table, same number on the encode and decode side of a type; (2) each marshal* shadow struct carries the same tags as its public twin, Marshal copies every wire field into the shadow and Unmarshal copies every one back, raw tickets are wrapped with the RFC's context tag; (3) wire-field audit: the static type handed to every asn1.Marshal call in the module contains only tagged fields (or is a literal that provably leaves an untagged field zero) — so decrypting an object cannot change its encoding; (4) SetFlag/UnsetFlag/IsFlagSet agree on byte i/8 and bit 7-(i-8*(i/8)) (RFC 4120 §5.2.8) and flags are 32 bits; (5) SPNEGO/KRB5 token framing: OID‖body in APPLICATION 0 on both sides, NegTokenInit/Resp as context tags 0/1 on both sides; (6) ticket sequences use SEQUENCE tag 0x30 + length. Round-trip equality for every value is not decided.",
+		Explain: "(1) every `asn1:` struct tag of the Kerberos/SPNEGO wire types (≈200 fields, read from go/types) against a reference table transcribed from RFC 4120 Appendix A, RFC 6806 §11, RFC 4178 §4.2 and RFC 3244 §2: context tag number, explicit, GeneralString on every KerberosString/Realm, GeneralizedTime on every KerberosTime, code-optional ⊆ RFC-optional; APPLICATION numbers at every AddASNAppTag/UnmarshalWithParams site against the RFC and the iana table, same number on the encode and decode side of a type; (2) each marshal* shadow struct carries the same tags as its public twin, Marshal copies every wire field into the shadow and Unmarshal copies every one back, raw tickets are wrapped with the RFC's context tag; (3) wire-field audit: the static type handed to every asn1.Marshal call in the module contains only tagged fields (or is a literal that provably leaves an untagged field zero) — so decrypting an object cannot change its encoding; (4) SetFlag/UnsetFlag/IsFlagSet agree on byte i/8 and bit 7-(i-8*(i/8)) (RFC 4120 §5.2.8) and flags are 32 bits; (5) SPNEGO/KRB5 token framing: OID‖body in APPLICATION 0 on both sides, NegTokenInit/Resp as context tags 0/1 on both sides; (6) ticket sequences use SEQUENCE tag 0x30 + length. Round-trip equality for every value is not decided. Added: write-through summaries (no decrypt/verify/checksum/derive entry writes the bytes of a parameter, interprocedurally); the ticket sequence keeps slice order (Σ vs Σreversed placements); clock values are converted to UTC before any use in the message-building packages; SetFlag/UnsetFlag pad to 4 octets.",
 		NotDecided: []string{
 			"decode∘encode = id for every value; length-octet arithmetic of asn1tools for all lengths (value properties over unbounded domains)",
 			"the gofork asn1 codec itself (dependency)",
